@@ -34,14 +34,14 @@ CLAIMS = {
         "technique": 'bounded model checking of the real Rust source (Kani/CBMC) + symbolic execution of the real Python modules (CrossHair/Z3)',
         "design_ref": "DESIGN.md section 6, C05",
         "text": 'Walk step lemmas shared with C06 (one step from any iterator state and any reply equals the reference step) and the Python iterator wrappers (sync and async) yield exactly the concatenation of what the socket returns up to the end marker. The closed loop over a finite MIB is the composition of the step lemma with an RFC 3416 agent (paper argument; a bounded closed-loop harness is listed as thorough/optional).',
-        "note": 'Trusted: Kani 0.68 / CBMC 6.11 / CaDiCaL; dev-profile semantics; OIDs up to 4 octets, replies up to 1 (quick) / 2-3 (thorough) varbinds; precedes cut S6 with its guarantee harness; CrossHair contracts bounded to 3+3 items.',
+        "note": 'Trusted: Kani 0.68 / CBMC 6.11 / CaDiCaL; dev-profile semantics; OIDs up to 4 octets, replies of 1 varbind (the 2-3 varbind GetBulk step harnesses were withdrawn, DESIGN.md section 9); precedes cut S6 with its guarantee harness; CrossHair contracts bounded to 3+3 items.',
     },
     "C06": {
         "engine": 'kani+crosshair',
         "technique": 'bounded model checking of the real Rust source (Kani/CBMC) + symbolic execution of the real Python modules (CrossHair/Z3)',
         "design_ref": "DESIGN.md section 6, C06",
         "text": 'One step of the real OpGetNext/OpGetBulk + GetIter from an ARBITRARY reachable state and an arbitrary reply (any OIDs of 1..4 octets, 6 value kinds incl. the three exception values): yields only in-subtree, strictly increasing (arc-wise) data values in order, follow-up request == last accepted OID, stops otherwise; SnmpOid::precedes == arc-wise order for all OIDs up to 4 octets. Termination = strictly increasing OIDs under a fixed prefix (paper step).',
-        "note": "Trusted: Kani 0.68 / CBMC 6.11 / CaDiCaL; dev-profile semantics; model pyo3; OID rendering cut S3'; larger replies in thorough tier.",
+        "note": "Trusted: Kani 0.68 / CBMC 6.11 / CaDiCaL; dev-profile semantics; model pyo3; OID rendering cut S3'; GetBulk replies larger than 1 varbind not decided (withdrawn harnesses).",
     },
     "C07": {
         "engine": 'kani+crosshair',
